@@ -113,6 +113,8 @@ class InlineTranslator:
         new_elements: list[AST] = []
         orig = hatom.symbol.arguments
         pass_ = replace_cond.atom.symbol.arguments
+        # the element that used the inlined atom may have further conditions: they stay
+        other_conditions = [cond for cond in replace_elem.condition if cond != replace_cond]
         for elem in agg.elements:
             transformed = self.transform_args(  # transform all lists at the same time to get equal aux vars
                 orig,
@@ -124,7 +126,7 @@ class InlineTranslator:
             transformed = transformed[len(elem.terms) :]
             new_terms = terms + list(replace_elem.terms[1:])
             new_terms.extend([Function(LOC, "unique", [], False)] * (max_arity - len(new_terms) + 1))
-            new_elements.append(elem.update(terms=new_terms, condition=transformed))
+            new_elements.append(elem.update(terms=new_terms, condition=transformed + other_conditions))
         return new_elements
 
     def inline_body_aggregate(self, rule: AST, atom: AST, unique_vars: UniqueVariables) -> AST:
